@@ -34,6 +34,9 @@ def programs(ctx):
             "    let p = P { t: Tag(core::marker::PhantomData, L { v: 1, n: 0 }), l: L { v: 2, n: 0 } }; let q = -&p; let r = -p; if q.l != r.l || q.t.1 != r.t.1 { out.push(\"-&P differs from -P\".to_string()); }\n    out }\n"
             "pub fn replay(_h: &str, _b: &[u8]) -> (bool, String) { (true, String::new()) }\n")
     out.append(E.Prog("p_self_in_bounds", text, [], {"describe": "Self in bound(..) and in a field type: derive_ex(Add, AddAssign, Neg, bound(Self: Tr, ..)) struct S<T>(L, T); derive_ex(Neg) struct P { t: Tag<Self>, l: L }"}, ncheck=True))
+    rp = "\npub fn replay(_h: &str, _b: &[u8]) -> (bool, String) { (true, String::new()) }\n"
+    out.append(E.Prog("p_kf_unsized_tail", "#[derive_ex::derive_ex(Sub, SubAssign, Neg)]\npub struct S<T: ?Sized>(pub L, pub T);\n" + rp, [], {"describe": "derive_ex(Sub, SubAssign, Neg) struct S<T: ?Sized>(L, T);"}))
+    out.append(E.Prog("p_kf_assoc_output", "pub trait Measure { type Output; }\n#[derive_ex::derive_ex(Sub, Neg)]\npub struct S<T: Measure>(pub T, pub T::Output);\n" + rp, [], {"describe": "trait Measure { type Output; } derive_ex(Sub, Neg) struct S<T: Measure>(T, T::Output);"}))
     # `Self` in an inline parameter bound and in the item's own where-clause (all eight forms exist and agree with the owned form)
     text = ("pub trait TagOf<W> {}\nimpl TagOf<Q<L>> for L {}\nimpl TagOf<R<L, 2>> for L {}\n"
             "#[derive_ex::derive_ex(Sub, SubAssign, Neg, Not)]\n#[derive(Clone, Copy, Debug, PartialEq)]\npub struct Q<T: TagOf<Self>>(pub T, pub T);\n"
